@@ -206,7 +206,7 @@ impl Property for C15 {
          delegated step: inner layout signed by another functionary / by nobody / by K plus others; inner expiry one second (or whole days) before the verification instant, which is the wall clock or an instant between 2008 and 2093 injected through the clock hook and different from case to case; inner links \
          placed in the parent directory, under another key's directory or (step names with dots) under the name with its last extension stripped; an inner link removed, tampered, replaced by an unauthorised \
          signer's, or with a broken signature; an inner rule that fails; the inner layout edited after signing; optionally the parent's next \
-         step is tied to the delegated step's summary with MATCH ... FROM rules, and a step name is requested. Oracle: parent Ok only if the \
+         step is tied to the delegated step's summary with MATCH ... FROM rules, and a step name is requested. History on disk: the fault-free tree is written and verified once in the same directory first, then the faulted tree replaces it at the same paths with one fixed modification time. Oracle: parent Ok only if the \
          ground-truth model finds no violated condition (the delegated step counts only when the inner world, judged with key set {K} and \
          directory <step>.<K8>, has none); on Ok the returned summary equals {requested name, materials of the first step, products, \
          command and byproducts of the last step} computed by the model (inner summaries feed parent evidence); fully valid MATCH-tied \
@@ -287,7 +287,8 @@ impl Property for C15 {
         let fault_name = format!("{:?}", spec.fault).split(|c| c == '(' || c == ' ').next().unwrap_or("").to_string();
         o.class(format!("fault:{}", if applied { fault_name.as_str() } else { "not-applicable" }));
         let dir = env.fresh_dir("c15");
-        let info = write_world(&w, &dir);
+        // history on disk: the fault-free tree was verified once in this very directory before
+        let info = write_world_after(&base, &spec.owners, &w, &dir);
         let j = judge(&w, &info, &spec.owners, now, true);
         if spec.fault == InnerFault::Expired && spec.clock.is_some() {
             // history: an earlier verification of the same layout, at an instant at which the sub-layout
